@@ -43,8 +43,24 @@ def parse_lex_obs(lines):
     return d
 
 
+def seed_tables(c, f):
+    """Pre-populate the decompression oracle tables of case c from the chunks of written file f
+    (payloads cut out of the file by the harness walker, plaintext from the codec called directly)."""
+    dec = dict(c.get("_dec") or {})
+    dall = dict(c.get("_dall") or {})
+    for comp, plain, payload, end in f["g"]["chunks"]:
+        if comp != b"" and end == "eof":
+            dec[(cm.hx(comp), cm.hx(payload), "eof")] = (cm.hx(plain), "eof")
+            dall[(cm.hx(comp), cm.hx(payload), str(len(plain)))] = ("ok", cm.hx(plain))
+    c["_dec"], c["_dall"] = dec, dall
+    return c
+
+
 def run_lex(cases, wd, tag="lex", timeout=900):
     """cases: list of dict(id, file, lopts?, src?). Returns (go, model, crashed)."""
+    for c in cases:
+        if "base" in c and "g" in c["base"] and "_dec" not in c:
+            seed_tables(c, c["base"])
     impl = os.path.join(cm.BUILD, "impl")
     model_exe = os.path.join(cm.BUILD, "model")
     go_raw, crashed = cm.run_sharded(impl, "lex", [(c["id"], lex_lines(c)) for c in cases], wd, tag + "go", timeout=timeout)
@@ -53,7 +69,7 @@ def run_lex(cases, wd, tag="lex", timeout=900):
     pending = list(cases)
     model = {}
     mcrashed = []
-    for rnd in range(5):
+    for rnd in range(12):
         if not pending:
             break
         raw, mc = cm.run_sharded(model_exe, "lex", [(c["id"], lex_lines(c, c.get("_dec"))) for c in pending], wd,
@@ -63,7 +79,7 @@ def run_lex(cases, wd, tag="lex", timeout=900):
         again = []
         for c in pending:
             m = parse_lex_obs(raw.get(c["id"], []))
-            if m["needs"] and rnd < 4:
+            if m["needs"] and rnd < 11:
                 for nd in m["needs"]:
                     needs[nd] = None
                 again.append((c, m["needs"]))
